@@ -231,6 +231,26 @@ func c19Check(cs c19Case) (sig, detail string) {
 	if cs.Layout != "" {
 		lay = ":" + cs.Layout
 	}
+	if strings.HasPrefix(cs.Layout, "zone-abbreviation|") && pv == nil {
+		// a layout with a zone ABBREVIATION: the instant the abbreviation's real offset gives, or an error -
+		// never another time
+		if err != nil {
+			return "", ""
+		}
+		want, _ := time.Parse(time.RFC3339Nano, cs.Instant)
+		back, berr := time.Parse(time.RFC3339, got)
+		if berr != nil {
+			return "rfc3339-text-not-parsable:" + cs.Fn, fmt.Sprintf("args %q returned %q (%v)", cs.Args, got, berr)
+		}
+		if back.Unix() == want.Unix() {
+			return "", ""
+		}
+		asUTC, _ := time.Parse(time.RFC3339Nano, cs.Want) // the wall reading taken for UTC
+		if back.Unix() == asUTC.Unix() {
+			return "zone-abbreviation-in-layout-read-as-utc", fmt.Sprintf("args %q returned %q: the abbreviation was taken for a zone of offset 0; the text denotes %s", cs.Args, got, want.UTC().Format(time.RFC3339))
+		}
+		return "wrong-value:" + cs.Fn + ":zone-abbreviation", fmt.Sprintf("args %q: got %s, the text denotes %s", cs.Args, got, want.UTC().Format(time.RFC3339))
+	}
 	switch {
 	case pv != nil:
 		return "panic:" + cs.Fn + ":" + site, fmt.Sprintf("%v args %q", pv, cs.Args)
@@ -297,7 +317,7 @@ func init() {
 	core.Register(&core.Prop{
 		ID:    "C19",
 		Level: "exploration",
-		Rule:  "finite grid: instants = {Jan 1 00:00:00, Feb 28 23:59:59, Feb 29 (leap years), Jun 30 12:34:56, Dec 31 23:59:59} of EVERY year 1..9999 + 1 s around every offset transition 1900-2037 of 40 zones + the int64-nanosecond limits + sentinels; layouts = every date form x date/time delimiter x time form x AM/PM form x fraction length 0..9 x zone suffix form advertised by the smart parser; zones = every IANA name known to the parser that this system can load, as source and as target; both epoch units; expected values computed with time.Date/In/Unix; plus every ordered pair of different readings of one text (day-first / month-first layout, layoutTZ on / off, smart parser, both epoch units) made by consecutive calls; plus a mutation alphabet of unparsable strings that must yield errors; a case is distinct by (function, arguments)",
+		Rule:  "finite grid: instants = {Jan 1 00:00:00, Feb 28 23:59:59, Feb 29 (leap years), Jun 30 12:34:56, Dec 31 23:59:59} of EVERY year 1..9999 + 1 s around every offset transition 1900-2037 of 40 zones + the int64-nanosecond limits + sentinels; layouts = every date form x date/time delimiter x time form x AM/PM form x fraction length 0..9 x zone suffix form advertised by the smart parser; zones = every IANA name known to the parser that this system can load, as source and as target; both epoch units; expected values computed with time.Date/In/Unix; plus every ordered pair of different readings of one text (day-first / month-first layout, layoutTZ on / off, smart parser, both epoch units) made by consecutive calls; plus a mutation alphabet of unparsable strings that must yield errors; plus dateTimeLayoutToRFC3339 with 5 layouts carrying a zone abbreviation x 15 abbreviations (UTC, GMT, GMT+3, WET, PDT, EST, CEST, JST ...) x 3 readings x 3 target zones: the instant the abbreviation denotes, or an error; a case is distinct by (function, arguments)",
 		Assumptions: []string{
 			"the expected values come from Go's time package (time.Date, Time.In, Time.Unix), which is the trusted base",
 			"RFC3339 output has second resolution: a fractional second in the input is compared after truncation for the RFC3339 functions and exactly (to the millisecond) for dateTimeToEpoch MILLISECOND",
@@ -653,6 +673,27 @@ func c19Run(c *core.Ctx) {
 						cs2 := g[i]
 						cs2.Before = []c19Case{g[j], g[j], g[i]}
 						emit(cs2)
+					}
+				}
+			}
+		}
+	}
+	// (4c) dateTimeLayoutToRFC3339 with a layout that has a zone ABBREVIATION (the function's documentation lists
+	// "tz short names like 'PST'"): the instant the abbreviation denotes, or an error
+	{
+		abbr := []struct {
+			name string
+			off  int
+		}{{"UTC", 0}, {"GMT", 0}, {"GMT+3", 3 * 3600}, {"GMT-11", -11 * 3600}, {"WET", 0}, {"PDT", -7 * 3600}, {"PST", -8 * 3600}, {"EST", -5 * 3600}, {"EDT", -4 * 3600},
+			{"CET", 3600}, {"CEST", 2 * 3600}, {"JST", 9 * 3600}, {"AEST", 10 * 3600}, {"NZDT", 13 * 3600}, {"MSK", 3 * 3600}}
+		for _, lay := range []string{"2006-01-02 15:04:05 MST", time.RFC1123, time.RFC822, time.UnixDate, "Jan _2 2006 3:04PM MST"} {
+			for _, wl := range []time.Time{time.Date(2020, 9, 22, 12, 34, 0, 0, time.UTC), time.Date(2021, 1, 3, 0, 5, 0, 0, time.UTC), time.Date(1999, 12, 31, 23, 59, 0, 0, time.UTC)} {
+				for _, a := range abbr {
+					text := wl.In(time.FixedZone(a.name, 0)).Format(lay) // the wall reading followed by the abbreviation
+					inst := time.Date(wl.Year(), wl.Month(), wl.Day(), wl.Hour(), wl.Minute(), wl.Second(), 0, time.FixedZone(a.name, a.off))
+					for _, toTZ := range []string{"", "UTC", "Asia/Tokyo"} {
+						emit(c19Case{Fn: "dateTimeLayoutToRFC3339", Args: []string{text, lay, "true", "", toTZ}, Layout: "zone-abbreviation|" + a.name,
+							Want: wl.Format(time.RFC3339Nano), Instant: inst.Format(time.RFC3339Nano)})
 					}
 				}
 			}
